@@ -72,7 +72,7 @@ def gen_case(rng, tag, forced_roles=None):
             # the two daughters adhere along the division interface; the one at list position 0 / 1 is shrunk below the minimum
             # volume (0.5 V * 0.8^3 = 0.26 V < 0.3 V) while still within the adhesion range of its sister
             evs.append((rng.choice([3, 6, 7]), 0 if r == "pair0" else 1, 0.8))
-    p = tissue.params(dt=1e-7, damping=5e-10, T=1.0, S=1.0, lmin=7.5e-7, cut_adh=5e-7 if not junction else 2e-6, cut_rep=5e-7, swap=0)
+    p = tissue.params(dt=1e-7, damping=5e-10, T=1.0, S=1.0, lmin=7.5e-7, cut_adh=5e-7 if not junction else 3e-6, cut_rep=5e-7, swap=0)
     line = tissue.fmt_tissue(p, cts, cells) + " RUN %d 1 %d 0 %s %d %s" % (niter, rng.randrange(10 ** 6), tag, len(evs), " ".join("%d %d %s" % (a, b, hx(c)) for a, b, c in evs))
     return dict(line=line, roles=roles, nft=nft, evs=evs, niter=niter, incoming_ids=rng.random() < 0.5)
 
